@@ -23,6 +23,26 @@ CLAIMED = {
             "server/protocol/dongle code with the oracle Spec.c03 on the implementation's output.",
             "partial: exception-safety under a conforming device is validated by correspondence, not proved; "
             "JSON grammar and python-bitcoinlib (shim) are trusted"),
+    "C04": ("Lean theorems over the tables the translator regenerates from the source on every run: every "
+            "result of the advance / update / sign translations is a code docs/protocol.md lists for that "
+            "command (for every status word and every result, via a lookup-with-default lemma); for every "
+            "status whose cause the documentation names, at the step where the firmware raises it, the tables "
+            "yield that very code (named_cause_tables, by decide over the generated tables); Python enums equal "
+            "the firmware headers; opcode and range constants as specified. The oracle Spec.C04.c04 (documented "
+            "code, 0/1 only on device success, named cause, error-range status never stops the manager) is "
+            "evaluated on the implementation's output for the status x step matrix.",
+            "partial: the composition 'status at step k of the real exchange reaches the table lookup' is the "
+            "model's control flow, tied to the code by the correspondence matrix (all 65536 words at every step "
+            "kind in thorough); namedCause is a trusted reading of firmware headers and docs"),
+    "C11": ("Lean theorems: transport classification; ensure_connection is a no-op without a pending repair; "
+            "under the common handler guard a communication error yields the device-error code and raises the "
+            "repair flag, a time-out yields the same code and leaves the flag; with a repair pending and a failing "
+            "connect the request gets the device-error code, nothing reaches the device, and the flag stays up "
+            "(reconnect_failure_retries, any number of attempts). The oracle Spec.C11.c11 is evaluated on the "
+            "implementation for every fault position x kind x command x mode and on repair follow-ups / real "
+            "two-request histories.",
+            "partial: 'bring-up APDUs precede the command APDU' is checked by the oracle on the implementation's "
+            "traces and by correspondence, not stated as a theorem; TCP-transport faults are out of scope"),
     "C14": ("Lean theorems about the model of get_unsigned_tx (python-bitcoinlib's codec re-modelled): fields "
             "preserved, script shape; tied to the code by differential correspondence and the oracle Spec.c14 "
             "evaluated on the implementation's output.",
